@@ -9,6 +9,14 @@ sys.path.insert(0, VERIF)
 from harness.core import CHECKS  # noqa
 
 TABLE = {
+    "C09": dict(
+        category="exploration", design_ref="3/C09",
+        technique="Hypothesis-generated claims/headers/datetimes with an encode-decode round-trip oracle (typed JSON equality, NumericDate model) and a must-raise oracle for validly signed non-object payloads minted by the reference",
+        text="~11 000 generated JWT round trips per quick run over JWS (14 algs) and JWE (17 algs x 8 encs) transports, key / key set / callable, keys imported from JWK/PEM/DER, claims with unicode, "
+             "nesting, big ints, floats and naive/UTC/offset datetimes (process TZ set to Asia/Tokyo so local-time slips show), explicit/implicit typ, caller header immutability; ~4800 "
+             "validly signed or encrypted payloads that are not JSON objects must raise InvalidPayloadError. Exploration over generated cases.",
+        note="naive datetimes are taken as UTC (library convention); integrity of the transport itself is decided by C01/C02 which use jwt.decode as an entry point",
+    ),
     "C10": dict(
         category="exploration", design_ref="3/C10",
         technique="Hypothesis-generated claims/requests with boundary values placed by construction, compared with a reference validator written from the statement (three-valued oracle: accept / reject with error class / don't care)",
